@@ -23,7 +23,7 @@ and not moved out, or captured by a not-yet-started future stored there.
               before any release of `self`; the function completes only through awaiting that listener
   G-RELEASE   at the listener's suspension point no strong handle is held any more (`self` was moved out —
               into `drop`); otherwise the shutdown would wait for itself
-  D-NOTIFY    `<ConnectionInner as Drop>::drop` calls `notify(n)` with a non-zero constant on `drop_event`
+  D-NOTIFY    `<ConnectionInner as Drop>::drop` calls `notify(usize::MAX)` (every waiter, not a bounded number) on `drop_event`
               on every path
   D-WHO       `drop_event` is used only by construction, `graceful_shutdown`, `Drop::drop` (and derived Debug)
 
@@ -299,6 +299,12 @@ def check_config(ctx, f, tag):
         v = k.get("v") if k else None
         ctx.ob("D-NOTIFY", tag + "notify-count-nonzero", isinstance(v, int) and v > 0,
                "notify(%s)" % v, c.where)
+        # every clone may be awaiting graceful_shutdown(): the number of listeners is unbounded, only "all" wakes them
+        # all (added after seeded change C39b: notify(1) left every waiter but the first pending forever)
+        ctx.ob("D-NOTIFY", tag + "notify-wakes-every-waiter", isinstance(v, int) and v >= 2 ** 64 - 1,
+               "notify(usize::MAX): every pending graceful_shutdown() is woken" if isinstance(v, int) and v >= 2 ** 64 - 1 else
+               "notify(%s): graceful_shutdown() can be awaited on any number of clones; a bounded count leaves the others "
+               "pending forever" % v, c.where)
     users = {}
     for b in f.all_bodies("zbus"):
         hit = None
